@@ -26,8 +26,8 @@ def run(ctx):
                      "buffer ids are bound dynamically to spec slots",
                      "OpenFlow bytes built/decoded by harness/rawbytes.py (struct only)"]
   # 1. the property on the model
-  for n in ([0, 1, 2] if quick else [0, 1, 2, 3]):
-    r = tlc.run("buffers", "MCBuffers", "MC_N%d.cfg" % n, tag="C18")
+  for n in ([0, 1, 2] if quick else [0, 1, 2, 3, 4]):
+    r = tlc.run("buffers", "MCBuffers", "MC_N%d.cfg" % n, tag="C18", timeout=3000)
     if r.violated:
       raise tlc.TLCError("spec violates its own property %s:\n%s" % (r.violated, r.error_trace))
     if n >= 1:
@@ -43,13 +43,13 @@ def run(ctx):
     ctx.notes["replay_N%d" % n] = dict(behaviours=len(behs), **st)
   # 3. long random behaviours
   num = 60 if quick else 1500
-  r = tlc.run("buffers", "MCBuffers", "EX_sim.cfg", workers=1, coverage=False,
-              simulate=dict(num=num), depth=41, seed=ctx.seed + 1, tag="C18")
+  r = tlc.run("buffers", "MCBuffers", "EX_sim.cfg" if quick else "EX_sim60.cfg", workers=1, coverage=False,
+              simulate=dict(num=num), depth=41 if quick else 61, seed=ctx.seed + 1, tag="C18")
   behs = [sort_sets(b) for b in r.tagged("H")]
   if len(behs) < num // 2:
     raise tlc.TLCError("simulation exported %d behaviours" % len(behs))
-  st = core.replay(ctx, ADAPTER, behs, params=dict(N=3), chunk=20)
-  ctx.notes["replay_sim"] = dict(behaviours=len(behs), depth=40, **st)
+  st = core.replay(ctx, ADAPTER, behs, params=dict(N=3 if quick else 4), chunk=20)
+  ctx.notes["replay_sim"] = dict(behaviours=len(behs), depth=40 if quick else 60, **st)
   # 4. code -> spec: random driver on the real switch, traces validated by TLC
   ntr = 200 if quick else 3000
   traces = core.run_driver("props.C18:drive", [(ctx.seed * 100003 + i, 40) for i in range(ntr)])
